@@ -132,7 +132,7 @@ def add_constraints(rng, inst, routes):
     inst["constraints"] = [[list(e) for e in c] for c in cons]
     inst["coverage"] = rng.choice(COVS) if cons else "1"
     if cons and not cyc and rng.random() < 0.35:
-        inst["lengths"] = [[u, v, str(rng.choice([1, 2, 3, 5, 10]))] for (u, v) in edges if rng.random() < 0.8]
+        inst["lengths"] = [[u, v, str(rng.choice([0, 1, 2, 3, 5, 10]))] for (u, v) in edges if rng.random() < 0.8]
         if rng.random() < 0.6:
             inst["coverage"] = "1"
             inst["coverage_length"] = rng.choice(["1", "1/2", "3/4", "7/10", "1/3"])
